@@ -376,7 +376,7 @@ func checkC14(c *Ctx) {
 			c.Check(sib, "R4", "3bet-cleared-elsewhere", p.InstrPos(ss.Instr), "other indexes cleared in the same loop", "setting the 3-bet flag does not clear it for the other players")
 		}
 	}
-	c.Min("R4", "3-bet flag stores", n4, 3)
+	c.Min("R4", "3-bet flag stores", n4, 2)
 	for f := range threeBetFns {
 		for _, site := range p.CG().AllCallSitesOf(f) {
 			args := site.Common().Args
